@@ -19,6 +19,145 @@ class Div(Exception):
     pass
 
 
+# ----------------------------------------------------------------------------------------------- heap dumps: closedness
+class DumpChecker:
+    """The closedness clause of C10 on the H3 heap dumps of one collection (phases pre | marked | weak | post; `O off
+    size tag marked broken S <strong slots> W <weak slots> X <extra slots = ephemeron values> C <saves>`).
+    PREMISE of coq/C10/Closed.v `sweep_inv_closed` = what the mark phase + weak pass must deliver to the sweep,
+    checked on the `marked` and `weak` dumps:
+      (m1) the marked set at sweep entry is closed under the strong slots (S, C) of marked objects,
+      (m2) it contains the closure of the set marked by sexp_mark under (strong slots U values of ephemerons whose
+           key is marked or immediate)  [computed here by a work list, independently of the implementation],
+      (m3) every weak slot of a marked object designates a marked object or is immediate (sexp_reset_weak_references
+           replaced the others by #f), every extra slot (ephemeron value) of a marked object designates a marked
+           object or is immediate.
+    CONCLUSION, checked on the `post` dump: the objects are exactly the marked ones and every slot (S, W, X, C) of
+    every object designates the start of an object of the post dump (not a free chunk, not the middle of one)."""
+
+    def __init__(self, rp):
+        self.rp = rp
+        self.active = False
+        self.phase = None
+        self.cur = None
+        self.coll = {}
+        self.n_coll = 0
+        self.n_weak = 0           # weak objects seen (marked, at sweep entry)
+        self.n_live_eph = 0       # ephemerons with a live heap key and a heap value at sweep entry
+        self.n_chain = 0          # ... whose key was not marked by sexp_mark alone (needed the fixpoint)
+        self.hi = 0
+        self.gcno = None
+
+    @staticmethod
+    def refs(tok):
+        out = []
+        for t in tok:
+            if t == "i" or t == "x":
+                out.append(None)
+            else:
+                a, _, b = t.partition(":")
+                out.append((int(a), int(b)))
+        return out
+
+    def feed(self, line, ln):
+        c = line[0]
+        if c == "D":
+            f = line.split()
+            self.active = True
+            self.phase = f[1]
+            self.gcno = f[2]
+            self.cur = {}
+            self.start_ln = ln
+            if self.phase == "pre":
+                self.coll = {}
+            return
+        if c == "O":
+            f = line.split()
+            off, size, tag, marked, broken = int(f[1]), int(f[2]), int(f[3]), f[4] == "1", f[5] == "1"
+            sect = {"S": [], "W": [], "X": [], "C": []}
+            k = None
+            for t in f[6:]:
+                if t in sect:
+                    k = t
+                else:
+                    sect[k].append(t)
+            self.cur[(self.hi, off)] = (size, tag, marked, self.refs(sect["S"]) + self.refs(sect["C"]), self.refs(sect["W"]), self.refs(sect["X"]))
+        elif c == "H":
+            self.hi = int(line.split()[1])
+        elif line == "E\n":
+            self.active = False
+            self.coll[self.phase] = self.cur
+            if self.phase == "post":
+                self.check(self.start_ln)
+                self.coll = {}
+        # "R root", "F off size", "K ...": not needed here
+
+    def check(self, ln):
+        rp = self.rp
+        marked, weak, post = self.coll.get("marked"), self.coll.get("weak"), self.coll.get("post")
+        if marked is None or weak is None or post is None:
+            return
+        self.n_coll += 1
+        where = "collection %s" % self.gcno
+
+        def show(a):
+            return "%d:%d" % a
+        # ---- spec: closure of sexp_mark's set under strong slots and live-key ephemeron values (work list)
+        M0 = {a for a, o in marked.items() if o[2]}
+        Mstar = set(M0)
+        ephs = [a for a, o in marked.items() if o[4] and o[5]]         # objects with weak and extra slots
+        changed = True
+        rounds = 0
+        while changed:
+            changed = False
+            rounds += 1
+            for a in ephs:
+                if a not in Mstar:
+                    continue
+                o = marked[a]
+                if any((k is None) or (k in Mstar) for k in o[4]):       # some key alive: not an unmarked heap object
+                    stack = [v for v in o[5] if v is not None and v not in Mstar and v in marked]
+                    while stack:
+                        b = stack.pop()
+                        if b in Mstar:
+                            continue
+                        Mstar.add(b)
+                        changed = True
+                        stack.extend(x for x in marked[b][3] if x is not None and x not in Mstar and x in marked)
+        M = {a for a, o in weak.items() if o[2]}
+        # ---- premise
+        for a in sorted(M):
+            o = weak[a]
+            for kind, refs in (("strong", o[3]), ("weak", o[4]), ("extra", o[5])):
+                for i, b in enumerate(refs):
+                    if b is not None and b not in M:
+                        rp.bad("closedness:marked-set-not-closed-at-sweep-entry:" + kind, ln,
+                               "%s: %s slot %d of the marked object %s (tag %d) designates %s, which is %s: the sweep will free it under a live reference"
+                               % (where, kind, i, show(a), o[1], show(b), "an unmarked object" if b in weak else "not an object"))
+            if o[4]:
+                self.n_weak += 1
+                if o[5] and any(k is not None for k in o[4]) and any(v is not None for v in o[5]):
+                    self.n_live_eph += 1
+                    if any(k is not None and k not in M0 for k in o[4]):
+                        self.n_chain += 1
+        miss = sorted(Mstar - M)
+        if miss:
+            rp.bad("closedness:mark-set-misses-ephemeron-closure", ln,
+                   "%s: %d object(s) reachable from the marked set through strong slots and values of live-key ephemerons carry no mark at sweep entry, first %s"
+                   % (where, len(miss), show(miss[0])))
+        # ---- conclusion
+        if set(post) != M:
+            d = sorted(set(post) ^ M)
+            rp.bad("closedness:survivors-differ-from-marked-set", ln, "%s: objects after the sweep differ from the marked ones at %s" % (where, show(d[0])))
+        for a in sorted(post):
+            o = post[a]
+            for kind, refs in (("strong", o[3]), ("weak", o[4]), ("extra (ephemeron value)", o[5])):
+                for i, b in enumerate(refs):
+                    if b is not None and b not in post:
+                        rp.bad("closedness:slot-designates-freed-storage", ln,
+                               "%s: after the sweep %s slot %d of the live object %s (tag %d) designates %s, which is a free chunk / not the start of an object"
+                               % (where, kind, i, show(a), o[1], show(b)))
+
+
 # ----------------------------------------------------------------------------------------------- trace -> requests
 class Replayer:
     """Streams one trace: writes the model requests and the expected answers, and evaluates the spec oracles on
@@ -51,6 +190,7 @@ class Replayer:
         self.maxfree_before = 0
         self.ratio = ratio
         self.last_gc = None        # (largest free chunk after the sweep, unmarked bytes, total) of the last collection
+        self.dumps = DumpChecker(self)     # H3 heap dumps (CHIBI_VERIF_DUMP), when the trace carries them: closedness
 
     def bad(self, sig, ln, text):
         if len(self.spec) < 50:
@@ -112,6 +252,9 @@ class Replayer:
                 if not line.endswith("\n") or len(line) < 2:
                     break                      # truncated last line of a killed process
                 c = line[0]
+                if self.dumps.active or c == "D":
+                    self.dumps.feed(line, ln)          # the lines of a heap dump ("D phase" ... "E")
+                    continue
                 if c == "A" and line[1] == " ":
                     f = line.split()
                     size, hi, off = int(f[1]), int(f[2]), int(f[3])
@@ -214,8 +357,16 @@ class Replayer:
                                 self.bad("growth:not-required-by-policy", ln,
                                          "heap grown by %d bytes for a request of %d although a free chunk of %d bytes was available after the "
                                          "collection and only %d of %d bytes were retained" % (growth[1], growth[0], mfa, tot - unm, tot))
+                        if growth[1] % self.unit or growth[1] < growth[0] + self.hdr:
+                            # grow_formula_aligned at the implementation level: chunk sizes are multiples of the unit, so a
+                            # segment whose size is not one cannot be tiled exactly (its tail belongs to no chunk)
+                            self.bad("growth:segment-size-not-aligned-or-too-small", ln,
+                                     "new segment of %d bytes for a request of %d: %s" % (growth[1], growth[0],
+                                     "%d bytes at its end belong to no chunk (size mod %d)" % (growth[1] % self.unit, self.unit) if growth[1] % self.unit
+                                     else "the request does not fit behind the header"))
                         self.add_heap(growth[1])
                         S["grows"] += 1
+                        S["big_grows"] = S.get("big_grows", 0) + (1 if 3 * growth[0] > 4 * self.heaps[-2] else 0)
                 elif c == "X":
                     oom = True
                 elif c == "N":
@@ -372,7 +523,8 @@ def workloads(thorough, rng=None):
     if not thorough:
         ws.append(("scheme-all-phases", "scm", [], ["all", "150", "1"], False, ("windows", 7, 12000, 1600000)))
         emb = [("emb-steady", [65536, 0, 60000, 11, 150, 0], True), ("emb-cycles", [65536, 0, 60000, 12, 400, 1], False),
-               ("emb-oom", [65536, 1500000, 50000, 13, 300, 2], False), ("emb-steady-big", [262144, 0, 60000, 14, 1500, 0], True)]
+               ("emb-oom", [65536, 1500000, 50000, 13, 300, 2], False), ("emb-steady-big", [262144, 0, 60000, 14, 1500, 0], True),
+               ("emb-growth-stream", [65536, 0, 4, 15, 16, 3], False)]
     else:
         for (nm, a, steady) in [("churn-small", ["churn", "600000", "1"], True), ("mixed-sizes", ["mixed", "150000", "2"], True),
                                 ("bursty", ["bursty", "80", "3"], False), ("records-tables", ["records", "150000", "4"], True),
@@ -386,6 +538,8 @@ def workloads(thorough, rng=None):
             emb.append(("emb-steady-%d" % sd, [65536 << (sd % 3), 0, 150000, 100 + sd, 100 + 150 * sd, 0], True))
             emb.append(("emb-cycles-%d" % sd, [65536 << (sd % 3), 0, 150000, 200 + sd, 200 + 100 * sd, 1], False))
             emb.append(("emb-oom-%d" % sd, [65536, 800000 + 300000 * sd, 100000, 300 + sd, 300, 2], False))
+            if sd < 6:
+                emb.append(("emb-growth-stream-%d" % sd, [65536 << (sd % 3), 0, 4 + sd % 3, 400 + sd, 16, 3], False))
     for (nm, a, steady) in emb:
         ws.append((nm, "emb", [str(x) for x in a], [], steady, ("all",)))
     ws.sort(key=lambda w: w[1] != "emb")          # the small complete replays first
@@ -403,9 +557,11 @@ def workloads(thorough, rng=None):
     return ws
 
 
-def run_workload(d, name, kind, cargs, sargs, outdir, timeout=900):
+def run_workload(d, name, kind, cargs, sargs, outdir, timeout=900, sweeplog=True, extra_env=None):
     trace = os.path.join(outdir, "c10-%s.trace" % name)
-    env = B.chibi_env(d, {"CHIBI_VERIF_TRACE": trace, "CHIBI_VERIF_SWEEPLOG": "1", "CHIBI_VERIF_AUDIT": "1"})
+    env = B.chibi_env(d, {"CHIBI_VERIF_TRACE": trace, "CHIBI_VERIF_SWEEPLOG": "1" if sweeplog else "0", "CHIBI_VERIF_AUDIT": "1"})
+    if extra_env:
+        env.update(extra_env)
     if kind == "emb":
         exe = os.path.join(d, "embed_c10")
         if not os.path.exists(exe) or os.path.getmtime(exe) < os.path.getmtime(EMBED):
@@ -439,7 +595,7 @@ def prescan(trace):
     return cum, n
 
 
-def check_trace(ctx, exe, w, consts, steady, window=("suffix", 40000), model_timeout=600):
+def check_trace(ctx, exe, w, consts, steady, window=("suffix", 40000), model_timeout=600, dump_stats=None):
     """replay one workload's trace; window = ("prefix", n): from the heap's creation, n allocations;
     ("suffix", n): from the latest sweep that leaves at least n allocations to replay; ("all",)"""
     base = w["trace"][:-6]
@@ -467,6 +623,12 @@ def check_trace(ctx, exe, w, consts, steady, window=("suffix", 40000), model_tim
     rp = Replayer(w["trace"], base + ".req", base + ".exp", unit=consts["unit"], hdr=consts["hdr"], start_gc=start_gc, max_allocs=max_allocs,
                   ratio=consts.get("ratio", (3, 4)))
     S = rp.run()
+    S["dumped_collections"] = rp.dumps.n_coll
+    if dump_stats is not None:
+        dump_stats["collections"] += rp.dumps.n_coll
+        dump_stats["weak_objects"] += rp.dumps.n_weak
+        dump_stats["live_ephemerons"] += rp.dumps.n_live_eph
+        dump_stats["needed_fixpoint"] += rp.dumps.n_chain
     t0 = time.time()
     truncated = False
     with open(base + ".req") as fi, open(base + ".ans", "w") as fo:
@@ -506,6 +668,329 @@ def check_trace(ctx, exe, w, consts, steady, window=("suffix", 40000), model_tim
                        % (div["trace_line"], div["event"], div["impl"], div["model"]), replay=w["replay"])
     S["diverged"] = div
     return S
+
+
+# ----------------------------------------------------------------------------------------------- weak objects
+EMBED_WEAK = os.path.join(HERE, "..", "harness", "embed_c10_weak.c")
+
+
+def chain_history(rng, m, perm=None, direct=False, live=True, extra_garbage=0):
+    """A chain of m ephemerons e_1..e_m on a bare context: key k_1 is rooted (unless not live), the value v_i of e_i is
+    the only path to k_(i+1) (v_i = (k_(i+1) . k_(i+1)), or k_(i+1) itself when `direct`), v_m is a leaf; every e_i is
+    rooted.  So with k_1 alive EVERYTHING must survive, and the marks needed come only from the ephemeron fixpoint of
+    sexp_mark_weak_extras, one link per round at worst.  The 3m objects are placed in the address order `perm` (a
+    permutation of range(3m): position of k_1,v_1,e_1,k_2,...): 3m adjacent placeholders are allocated, and before
+    each object is created the placeholder at its position is dropped and a collection run, so that first fit puts
+    the object into that hole (the achieved addresses are verified by the caller).
+    Returns (history text, names in creation order, perm)."""
+    n = 3 * m
+    if perm is None:
+        perm = list(range(n))
+        rng.shuffle(perm)
+    names = []
+    for i in range(1, m + 1):
+        names += ["k%d" % i, "v%d" % i, "e%d" % i]
+    pos = dict(zip(names, perm))
+    slot = {nm: 40 + j for j, nm in enumerate(names)}
+    ops = ["Z"] + ["H,%d" % j for j in range(n)]
+    order = []
+
+    def place(nm, op):
+        ops.append("D,%d" % pos[nm]); ops.append("G"); ops.append(op); order.append(nm)
+    for i in range(m, 0, -1):
+        if i == m:
+            place("v%d" % i, "K,%d" % slot["v%d" % i])
+        elif direct:
+            order.append("v%d" % i)            # v_i IS k_(i+1): no object of its own (its placeholder stays)
+            slot["v%d" % i] = slot["k%d" % (i + 1)]
+        else:
+            place("v%d" % i, "C,%d,%d,%d" % (slot["v%d" % i], slot["k%d" % (i + 1)], slot["k%d" % (i + 1)]))
+        place("k%d" % i, "K,%d" % slot["k%d" % i])
+        place("e%d" % i, "E,%d,%d,%d" % (slot["e%d" % i], slot["k%d" % i], slot["v%d" % i]))
+    # drop the construction roots: only k_1 and the ephemerons stay rooted
+    for i in range(1, m + 1):
+        ops.append("D,%d" % slot["v%d" % i])
+        if i > 1 or not live:
+            ops.append("D,%d" % slot["k%d" % i])
+    for j in range(n):
+        ops.append("D,%d" % j)                # the remaining placeholders
+    ops += ["G", "W,%d" % (300 + extra_garbage), "G"]
+    if live:                                    # then let the chain die from its head: the next collection breaks every link
+        ops += ["D,%d" % slot["k1"], "G", "W,200", "G"]
+    return "%d %s" % (64, ";".join(ops)), [o for o in order if not (direct and o.startswith("v") and o != "v%d" % m)], perm
+
+
+def random_weak_history(rng, nops):
+    """random mix of keys, pairs, ephemerons (also ephemerons as keys / values of ephemerons, cycles through S),
+    drops, explicit and natural collections"""
+    ns = 14
+    ops = []
+    for _ in range(nops):
+        r = rng.randrange(100)
+        i, a, b = rng.randrange(ns), rng.randrange(ns), rng.randrange(ns)
+        if r < 18:
+            ops.append("K,%d" % i)
+        elif r < 34:
+            ops.append("C,%d,%d,%d" % (i, a, b))
+        elif r < 62:
+            ops.append("E,%d,%d,%d" % (i, a, b))
+        elif r < 70:
+            ops.append("S,%d,%d" % (i, a))
+        elif r < 86:
+            ops.append("D,%d" % i)
+        elif r < 95:
+            ops.append("G")
+        elif r < 98:
+            ops.append("W,%d" % rng.randrange(50, 3000))
+        else:
+            ops.append("B,%d,%d" % (i, rng.randrange(2, 400)))
+    ops.append("G")
+    return "%d %s" % (ns, ";".join(ops))
+
+
+def weak_histories(rng, thorough):
+    """(name, text, check-of-achieved-layout or None)"""
+    import itertools
+    hs = []
+    # every address order of the two-link chain's (e_1, v_1, e_2) decides which ephemeron the scan meets first and
+    # whether the newly marked value lies before or behind the scan pointer; the other objects matter for reuse
+    perms2 = list(itertools.permutations(range(6)))
+    rng.shuffle(perms2)
+    for j, perm in enumerate(perms2 if thorough else perms2[:40]):
+        hs.append(("chain2-%s" % "".join(map(str, perm)),) + chain_history(rng, 2, list(perm), direct=(j % 4 == 3)))
+    for j in range(400 if thorough else 40):
+        m = 3 + j % 3
+        hs.append(("chain%d-r%d" % (m, j),) + chain_history(rng, m, None, direct=(j % 5 == 4), live=(j % 7 != 6), extra_garbage=rng.randrange(0, 2000)))
+    # descending / ascending ladders: the worst case for a single scan (one link per round)
+    for m in (2, 4, 6) if not thorough else (2, 3, 4, 5, 6, 8):
+        up = list(range(3 * m))
+        hs.append(("ladder-up-%d" % m,) + chain_history(rng, m, up))
+        hs.append(("ladder-down-%d" % m,) + chain_history(rng, m, up[::-1]))
+        # ephemerons descending, each value ABOVE its ephemeron, keys on top
+        perm = [0] * (3 * m)
+        for i in range(m):
+            perm[3 * i + 2] = (m - 1 - i) * 2            # e_i
+            perm[3 * i + 1] = (m - 1 - i) * 2 + 1        # v_i right above e_i
+            perm[3 * i] = 2 * m + i                      # k_i
+        hs.append(("ladder-value-above-%d" % m,) + chain_history(rng, m, perm))
+    for j in range(300 if thorough else 30):
+        hs.append(("random-%d" % j, random_weak_history(rng, rng.randrange(20, 120)), None, None))
+    return hs
+
+
+def run_weak_embed(ctx, d, exe, consts, outdir, total):
+    """ephemeron workloads on a bare context (harness/embed_c10_weak.c): audit of closedness after EVERY collection
+    (the harness's own heap walk + the CHIBI_VERIF_AUDIT hook), the premise / conclusion of sweep_inv_closed on the
+    four heap dumps of every collection, and the allocator trace through the model like every embedding workload"""
+    hexe = os.path.join(d, "embed_c10_weak")
+    if not os.path.exists(hexe) or os.path.getmtime(hexe) < os.path.getmtime(EMBED_WEAK):
+        B.cc_embed(d, EMBED_WEAK, hexe)
+    hs = weak_histories(ctx.rng, ctx.thorough)
+    heap = 262144
+    batch = 60
+    agg = dict(histories=0, collections=0, weak_objects=0, live_ephemerons=0, needed_fixpoint=0, layouts_achieved=0, layouts_wanted=0, allocs=0)
+
+    def run_batch(lines, tag, dump=True):
+        trace = os.path.join(outdir, "c10-weak-%s.trace" % tag)
+        env = B.chibi_env(d, {"CHIBI_VERIF_TRACE": trace, "CHIBI_VERIF_SWEEPLOG": "1", "CHIBI_VERIF_AUDIT": "1"})
+        if dump:
+            env["CHIBI_VERIF_DUMP"] = "all"
+        try:
+            r = subprocess.run([hexe, str(heap)], input="\n".join(lines) + "\n", capture_output=True, text=True, timeout=120, env=env)
+            return trace, r.returncode, r.stdout, r.stderr
+        except subprocess.TimeoutExpired as e:
+            return trace, "TIMEOUT", (e.stdout or b"").decode("utf-8", "replace") if isinstance(e.stdout, bytes) else (e.stdout or ""), ""
+
+    def replay_of(text):
+        return ("printf '%%s\\n' '%s' | CHIBI_VERIF_AUDIT=1 CHIBI_VERIF_SWEEPLOG=1 CHIBI_VERIF_DUMP=all CHIBI_VERIF_TRACE=/var/tmp/c10.trace LD_LIBRARY_PATH=%s %s %d"
+                "   # WAUDIT FAIL / VERIF-AUDIT FAIL lines name the live object and the freed storage its slot designates" % (text, d, hexe, heap))
+
+    def confirm(name, text, sig, observed):
+        """a failure inside a batch: re-run the history ALONE in a fresh process; that is the replay when it fails too"""
+        _, rc, out, err = run_batch([text], "confirm", dump=False)
+        alone = [l for l in out.split("\n") if l.startswith("WAUDIT FAIL")] + [l for l in err.split("\n") if "VERIF-AUDIT FAIL" in l]
+        if alone or rc != 0:
+            ctx.violation(sig, input="ephemeron history %s (bare context, heap %d): %s" % (name, heap, text),
+                          expected="after every collection every slot (strong, weak, ephemeron value) of every live object designates a live object",
+                          observed=(alone[0] if alone else "rc=%s" % rc), replay=replay_of(text))
+            return True
+        return False
+
+    reported = 0
+    for b0 in range(0, len(hs), batch):
+        part = hs[b0:b0 + batch]
+        tag = "b%d" % (b0 // batch)
+        trace, rc, out, err = run_batch([h[1] for h in part], tag)
+        lines = out.split("\n")
+        fails = {}
+        addrs = {}
+        for l in lines:
+            if l.startswith("WAUDIT FAIL"):
+                m = re.match(r"WAUDIT FAIL hist=(\d+) ", l)
+                fails.setdefault(int(m.group(1)), []).append(l)
+            elif l.startswith("A "):
+                f = l.split()
+                addrs[int(f[1])] = [tuple(int(x) for x in e.split(":")) for e in f[2].split(",")] if len(f) > 2 else []
+        done = "DONE" in out
+        batchfile = os.path.join(outdir, "c10-weak-%s.hist" % tag)
+        open(batchfile, "w").write("\n".join(h[1] for h in part) + "\n")
+        batch_replay = ("CHIBI_VERIF_AUDIT=1 CHIBI_VERIF_SWEEPLOG=1 CHIBI_VERIF_DUMP=all CHIBI_VERIF_TRACE=/var/tmp/c10.trace LD_LIBRARY_PATH=%s %s %d < %s"
+                        % (d, hexe, heap, batchfile))
+        for hi_, ls in sorted(fails.items()):
+            if reported >= 4:
+                break
+            name, text = part[hi_][0], part[hi_][1]
+            if not confirm(name, text, "closedness:live-object-references-freed-storage", ls[0]):
+                ctx.violation("closedness:live-object-references-freed-storage", input="ephemeron history %s = line %d of %s: %s" % (name, hi_ + 1, batchfile, text),
+                              expected="after every collection every slot (strong, weak, ephemeron value) of every live object designates a live object",
+                              observed=ls[0], replay=batch_replay)
+            reported += 1
+        hook = [l for l in err.split("\n") if "VERIF-AUDIT FAIL" in l]
+        if hook and not fails and reported < 4:
+            ctx.violation("audit:" + re.sub(r"[^a-z]+", "-", hook[0].split(":", 1)[-1].strip().lower()), input="ephemeron histories %s" % batchfile,
+                          expected="VERIF audit passes after every sweep", observed=hook[0], replay=batch_replay)
+            reported += 1
+        if (rc != 0 or not done) and not fails and not hook:
+            # find the history the process died in
+            k = sum(1 for l in lines if l.startswith("H "))
+            name, text = part[min(k, len(part) - 1)][0], part[min(k, len(part) - 1)][1]
+            if not confirm(name, text, "workload-crash:weak-history", "rc=%s" % rc):
+                ctx.violation("workload-crash:weak-histories", input="ephemeron histories %s (died in line %d)" % (batchfile, k + 1), expected="exit 0",
+                              observed="rc=%s %s" % (rc, err[-300:]), replay=batch_replay)
+            reported += 1
+        # achieved layouts: the objects of a chain history must sit in the address order asked for
+        for j, h in enumerate(part):
+            if h[2] is None or j not in addrs:
+                continue
+            names, perm = h[2], h[3]
+            nplace = len(perm)
+            a = addrs[j]
+            # ids: fillers are not recorded; placeholders are ids 1..nplace, then the objects in creation order
+            if len(a) < nplace + len(names):
+                continue
+            agg["layouts_wanted"] += 1
+            base = a[0][2]
+            unit = consts["unit"]
+            want_names = ["k%d" % (i // 3 + 1) if i % 3 == 0 else ("v%d" % (i // 3 + 1) if i % 3 == 1 else "e%d" % (i // 3 + 1)) for i in range(nplace)]
+            posn = dict(zip(want_names, perm))
+            ok = all(a[i][1] == a[0][1] and a[i][2] == base + unit * i for i in range(nplace))
+            for idx, nm in enumerate(names):
+                e = a[nplace + idx]
+                ok = ok and e[1] == a[0][1] and e[2] == base + unit * posn[nm]
+            if ok:
+                agg["layouts_achieved"] += 1
+        agg["histories"] += len(part)
+        if os.path.exists(trace):
+            w = dict(name="weak-%s" % tag, trace=trace, rc=rc, out="", err="", secs=0.0,
+                     replay=batch_replay)
+            try:
+                S = check_trace(ctx, exe, w, consts, False, window=("all",), model_timeout=(90 if not ctx.thorough else 600), dump_stats=agg)
+                for k in total:
+                    total[k] += S[k]
+                ctx.count(S["allocs"] + S["gcs"] + S["grows"], key=None)
+                for i in range(S["gcs"]):
+                    ctx.count(0, key=("weak-" + tag, "gc", i))
+                agg["allocs"] += S["allocs"]
+                ctx.cov["traces_validated_against_impl"] += 1
+            except Exception as e:
+                import traceback
+                ctx.broken("trace-analysis:weak-" + tag, "the trace of %s could not be analysed: %s %s" % (batchfile, e, traceback.format_exc()[-600:]), replay=batch_replay)
+        if not os.environ.get("VERIF_KEEP_TRACES"):
+            for ext in (".trace", ".req", ".exp", ".ans"):
+                try:
+                    os.unlink(trace[:-6] + ext)
+                except OSError:
+                    pass
+        if ctx.violations and not ctx.thorough:
+            break
+    ctx.sample(dict(workload="weak-embed", **agg), maxn=20)
+    ctx.cov["weak"] = agg
+    if agg["layouts_wanted"] and agg["layouts_achieved"] * 10 < agg["layouts_wanted"] * 9:
+        ctx.broken("weak:layouts-not-achieved", "only %d of %d ephemeron chains were placed in the address order asked for: the placement technique of "
+                   "harness/embed_c10_weak.c (placeholders, drop, collect, first fit) no longer works on this allocator" % (agg["layouts_achieved"], agg["layouts_wanted"]))
+    if agg["histories"] and (agg["needed_fixpoint"] == 0 or agg["live_ephemerons"] == 0) and not ctx.violations:
+        ctx.broken("weak:no-chains-observed", "no collection of the ephemeron workloads had an ephemeron whose key was marked only by the fixpoint pass: %s" % agg)
+
+
+def run_weak_scheme(ctx, d, exe, consts, outdir, total):
+    """(chibi weak) under the real interpreter: harness/c10_workloads.scm `weak` (ephemeron chains allocated in random
+    orders between garbage, re-verified all the time: a value swept under a live ephemeron is reported by the
+    workload itself as C10-WEAK-CORRUPT), with the audit hook at every collection and the four heap dumps of some of
+    the workload's own collections (the premise / conclusion of sweep_inv_closed on the interpreter's real heap:
+    contexts, stacks, the file-descriptor table's ephemerons, ...)."""
+    seed = str(ctx.rng.randrange(1, 1000000))
+    n = "6000" if ctx.thorough else "1500"
+    # collections of the start-up (deterministic for a build): the dumps are taken after them
+    w0 = run_workload(d, "weak-startup", "scm", [], ["churn", "1", seed], outdir, timeout=300, sweeplog=False)
+    c0 = 0
+    if os.path.exists(w0["trace"]):
+        with open(w0["trace"]) as fh:            # "C gc=<the collecting context's own count> alloc=.."; the dump schedule uses that count
+            for l in fh:
+                if l.startswith("C gc="):
+                    c0 = max(c0, int(l.split()[1][3:]))
+        os.unlink(w0["trace"])
+    offs = [1, 2, 3, 12, 40, 90, 200, 330] if not ctx.thorough else [1, 2, 3, 4, 5, 6] + list(range(10, 1500, 27))
+    dumps = ",".join(str(c0 + j) for j in offs[:64])
+    # no sweep log here (a collection after every step: hundreds of collections of a 60 k-object heap): audit hook + dumps + self-check
+    w = run_workload(d, "scheme-weak", "scm", [], ["weak", n, seed], outdir, timeout=600, sweeplog=False, extra_env={"CHIBI_VERIF_DUMP": dumps})
+    w["replay"] = "CHIBI_VERIF_DUMP=%s %s" % (dumps, w["replay"].replace("CHIBI_VERIF_SWEEPLOG=1", "CHIBI_VERIF_SWEEPLOG=0"))
+    if not os.path.exists(w["trace"]):
+        ctx.broken("workload:scheme-weak", "workload left no trace: rc=%s %s" % (w["rc"], w["err"][-300:]))
+        return
+    what = "c10_workloads.scm weak %s %s" % (n, seed)
+
+    class Sink:
+        spec = []
+
+        def bad(self, sig, ln, text):
+            if len(self.spec) < 20:
+                self.spec.append((sig, ln, text))
+    sink = Sink()
+    dc = DumpChecker(sink)
+    ngc = nalloc = 0
+    with open(w["trace"]) as fh:
+        ln = 0
+        for line in fh:
+            ln += 1
+            if not line.endswith("\n"):
+                break
+            c = line[0]
+            if dc.active or c == "D":
+                dc.feed(line, ln)
+                if c == "D" and line.startswith("D post"):
+                    ngc += 1
+            elif c == "C":
+                ngc += 1
+            elif c == "A":
+                nalloc += 1
+    for (sig, ln, text) in sink.spec[:4]:
+        ctx.violation(sig, input="%s, trace line %d" % (what, ln), expected="closedness clause of C10 on the heap dump (premise / conclusion of sweep_inv_closed)",
+                      observed=text, replay=w["replay"] + "   # then inspect /var/tmp/c10.trace around line %d" % ln)
+    audit = [l for l in w["err"].split("\n") if "VERIF-AUDIT FAIL" in l]
+    if audit:
+        ctx.violation("audit:" + re.sub(r"[^a-z]+", "-", audit[0].split(":", 1)[-1].strip().lower()), input=what,
+                      expected="VERIF audit passes after every sweep", observed=audit[0], replay=w["replay"])
+    if "C10-WEAK-CORRUPT" in w["out"]:
+        line = [l for l in w["out"].split("\n") if "C10-WEAK-CORRUPT" in l][0]
+        ctx.violation("closedness:ephemeron-value-freed-under-live-key", input=what,
+                      expected="the value of an ephemeron whose key is alive is the object it was created with (and after the key's death: that object or #f)",
+                      observed=line[:300], replay=w["replay"])
+    elif w["rc"] != 0:
+        ctx.violation("workload-crash:scheme-weak", input=what, expected="exit 0 (ephemeron chains built, collected and re-verified)",
+                      observed="rc=%s %s" % (w["rc"], w["err"][-400:]), replay=w["replay"])
+    agg = dict(collections_run=ngc, allocations=nalloc, collections=dc.n_coll, weak_objects=dc.n_weak, live_ephemerons=dc.n_live_eph, needed_fixpoint=dc.n_chain)
+    ctx.count(nalloc + ngc, key=None)
+    for i in range(ngc):
+        ctx.count(0, key=("scheme-weak", "gc", i))
+    ctx.cov["weak_scheme"] = agg
+    ctx.sample(dict(workload="scheme-weak", **agg), maxn=20)
+    if (agg["collections"] == 0 or agg["live_ephemerons"] == 0) and w["rc"] == 0:
+        ctx.broken("weak:scheme-dumps-empty", "the dumped collections (%s) of the Scheme weak workload show no live ephemeron: %s" % (dumps, agg))
+    if not os.environ.get("VERIF_KEEP_TRACES"):
+        try:
+            os.unlink(w["trace"])
+        except OSError:
+            pass
 
 
 def guarded_build(ctx, limit=300):
@@ -640,6 +1125,14 @@ def run(ctx):
         os.unlink(os.path.join(outdir, f))
     selftest(ctx, exe, consts, outdir)
     total = dict(allocs=0, gcs=0, slow=0, grows=0, ooms=0)
+    skip = os.environ.get("VERIF_C10_SKIP", "").split(",")       # developer switch (validation of single parts); never set by ./check
+    try:
+        if "weak-embed" not in skip:
+            run_weak_embed(ctx, d, exe, consts, outdir, total)
+    except B.BuildError as e:
+        ctx.broken("harness:embed_c10_weak", str(e)[-800:])
+    if complete and not (ctx.violations and not ctx.thorough):
+        run_weak_scheme(ctx, d, exe, consts, outdir, total)
     for (name, kind, cargs, sargs, steady, window) in workloads(ctx.thorough, ctx.rng):
         if kind == "scm" and not complete:
             continue
@@ -673,6 +1166,9 @@ def run(ctx):
         for i in range(S["grows"] + S["ooms"]):
             ctx.count(0, key=(name, "grow/oom", i))
         ctx.cov["traces_validated_against_impl"] += 1
+        if "growth-stream" in name and S.get("big_grows", 0) < 2 and w["rc"] == 0:
+            ctx.broken("growth-stream:no-request-decided-growth", "workload %s produced %d growths decided by a request larger than 4/3 of the last segment"
+                       % (name, S.get("big_grows", 0)))
         if os.environ.get("VERIF_C10_PROFILE"):
             sys.stderr.write("C10 profile: %s run %.1fs model %.1fs total-so-far %.0fs allocs %d\n" % (name, w["secs"], S["model_secs"], time.time() - ctx.t0, S["allocs"]))
         ctx.sample(dict(workload=name, allocations=S["allocs"], collections=S["gcs"], slow_path=S["slow"], growths=S["grows"], oom=S["ooms"],
